@@ -18,6 +18,29 @@ CHECKS = {
         note="Trusted: TLC, the layout writer (tokens->text), the projection of parser objects to records. Bounded by the "
              "identifier/type pools of the spec and by type nesting depth (exhaustive to depth 1-2, deeper by simulation).",
         design="6/C01"),
+    "C07": dict(
+        category="fault_enumeration",
+        technique="TLA+ fault model (Corrupt!ApplyCorrupt) enumerated over derivations; accepted inputs decided by TLC "
+                  "trace validation (Explains); file-system effects of failing runs observed",
+        text="Every single-token delete/duplicate/swap/truncate/stray-insert/bracket-flip of TLC-derived modules and "
+             "fixtures is replayed into the parser. Rejected: the run must fail and (API and both scripts, sampled) leave "
+             "the output directory untouched. Accepted: TLC re-applies the fault itself and decides whether the returned "
+             "tree accounts for every token (Iface!Explains), so a silently dropped or half-used token is a violation.",
+        note="Single faults only. Any exception counts as loud rejection (kinds recorded in evidence). Quick tier samples "
+             "stray insertions on large modules; thorough enumerates all faults of each module. Trusted: layout writer, "
+             "lexer regrouping (itself verified by TLC: IfaceTrace!Regrouped), projection.",
+        design="6/C07"),
+    "C12": dict(
+        category="model_checking",
+        technique="TLA+ Layout spec (Relayout is stuttering, TLC-checked) + replay of Relayout steps into parser and both "
+                  "generators",
+        text="spec/Layout.tla states that trivia changes leave every observable unchanged (action property checked by "
+             "TLC). Binding: for TLC-derived modules and fixtures every gap is re-laid once with non-canonical trivia "
+             "(whitespace, newlines, hostile C/C++ comments) and the parse result must stay the tree the spec emitted; "
+             "all-gaps-at-once re-layouts additionally compare wrap_file text and the MATLAB file tree byte for byte.",
+        note="Tokens are C++-lexical tokens, defaults opaque. One trivia per gap per module in the quick tier (rotating "
+             "through the pool). Three classes of genuine deviations are known findings (see known_findings.json).",
+        design="6/C12"),
 }
 
 NOT_YET = "not yet built in this session; planned per DESIGN.md section 6"
